@@ -165,6 +165,11 @@ inductive HStep where
   | get (op : String) (i : Nat) (k : String)
   | mput (i : Nat) (k v : String)
   | mputall (i j : Nat)
+  | slice (i x y : Nat)
+  | filter (sel : Bool) (i : Nat) (ks : List String)
+  | sort (i : Nat)
+  | eachSlice (i : Nat) (n : Int)
+  | mapKeys (i : Nat) (k : String)
 
 def hPair? : Sexp → Option ((String × String) × Bool)
   | .list [k, v] => do let k' ← valStr k; let v' ← valStr v; pure ((k', v'), plainText k && plainText v)
@@ -183,6 +188,14 @@ def hStep? : Sexp → Option (HStep × List String)
   | .list [.atom "get4", i, k] => do let i' ← ref? i; let k' ← keyAtom? k; pure (.get "get4" i' k', [k'])
   | .list [.atom "deleteAll", i, .list ks] => do
       let i' ← ref? i; let ks' ← ks.mapM valStr; pure (.deleteAll i' ks', ks')
+  | .list [.atom "select", i, .list ks] => do
+      let i' ← ref? i; let ks' ← ks.mapM valStr; pure (.filter true i' ks', ks')
+  | .list [.atom "reject", i, .list ks] => do
+      let i' ← ref? i; let ks' ← ks.mapM valStr; pure (.filter false i' ks', ks')
+  | .list [.atom "slice", i, x, y] => do let i' ← ref? i; let x' ← ref? x; let y' ← ref? y; pure (.slice i' x' y', [])
+  | .list [.atom "sort", i] => do let i' ← ref? i; pure (.sort i', [])
+  | .list [.atom "eachSlice", i, n] => do let i' ← ref? i; let n' ← n.int?; pure (.eachSlice i' n', [])
+  | .list [.atom "mapKeys", i, k] => do let i' ← ref? i; let k' ← valStr k; pure (.mapKeys i' k', [k'])
   | .list (.atom op :: ps) =>
     if op = "wrap" ∨ op = "parse" ∨ op = "parsea" ∨ op = "build" then do
       let ps' ← ps.mapM hPair?
@@ -265,6 +278,43 @@ def runHash (steps : List HStep) (uni : List String) : String := Id.run do
         | some (some v) => res := s!"{op}={v},t,{v},t"; made := some i
         | some none => res := s!"{op}=_,f,-1,f"; made := some i
         | none => res := op; fault := true
+    | .slice i x y =>
+      match pool[i]? with
+      | none => res := "bad-ref"
+      | some (h, m) =>
+        if m then res := "skip" else
+        match h.slice x y with
+        | some n => pool := pool.push (n, false); res := "slice"; made := some (pool.size - 1)
+        | none => res := "skip"             -- bounds outside the value: a caller error, outside the property
+    | .filter sel i ks =>
+      match pool[i]? with
+      | none => res := "bad-ref"
+      | some (h, m) =>
+        if m then res := "skip" else
+        let p := fun (e : String × String) => ks.contains e.1
+        let n := if sel then h.selectPairs p else h.rejectPairs p
+        pool := pool.push (n, false); res := (if sel then "select" else "reject"); made := some (pool.size - 1)
+    | .sort i =>
+      match pool[i]? with
+      | none => res := "bad-ref"
+      | some (h, m) =>
+        if m then res := "skip" else
+        pool := pool.push (h.sort (fun x y => decide (x ≤ y)), false); res := "sort"; made := some (pool.size - 1)
+    | .mapKeys i k =>
+      match pool[i]? with
+      | none => res := "bad-ref"
+      | some (h, m) =>
+        if m then res := "skip" else
+        -- `MapEntries`: `mapped[i] = mapper(e)`, then `WrapHash(mapped)` (no check for equal keys)
+        pool := pool.push (Hash.wrap (h.entries.map fun e => (k, e.2)), false); res := "mapKeys"; made := some (pool.size - 1)
+    | .eachSlice i n =>
+      match pool[i]? with
+      | none => res := "bad-ref"
+      | some (h, _) =>
+        match h.eachSlice n with
+        | none => res := "eachSlice=illegal"
+        | some cs =>
+          res := "eachSlice=[" ++ sp (cs.map fun c => "(" ++ sp (c.map fun e => e.1 ++ "=" ++ e.2) ++ ")") ++ "]"
     | .mput i k v =>
       match pool[i]? with
       | none => res := "bad-ref"
